@@ -1,4 +1,6 @@
 import NanoVerif.Model.Tensor
+import NanoVerif.Proofs.TensorRemoveIf
+import NanoVerif.Proofs.TensorIntegral
 /-!
   C16 — property theorems about the tensor addressing model (`Model/Tensor.lean`).
   Core Lean only. Helper lemmas live in this file only when they are part of the statement chain;
@@ -64,6 +66,46 @@ theorem index_unindex : ∀ (dims : List Nat) (o : Nat), o < size dims → index
     simp only [unindex, index]
     rw [index_unindex ds _ (Nat.mod_lt _ hpos)]
     exact Nat.div_add_mod' o (size ds)
+
+/-- the row-major offset is strictly monotone for the lexicographic order of valid tuples, and conversely:
+    iterating the buffer visits the index tuples in lexicographic order -/
+theorem index_lex_mono : ∀ (dims a b : List Nat), Valid dims a → Valid dims b →
+    (LexLt a b ↔ index dims a < index dims b)
+  | [], [], [], _, _ => by simp [LexLt, index]
+  | [], _ :: _, _, h, _ => by simp [Valid] at h
+  | [], [], _ :: _, _, h => by simp [Valid] at h
+  | _ :: _, [], _, h, _ => by simp [Valid] at h
+  | _ :: _, _ :: _, [], _, h => by simp [Valid] at h
+  | d :: ds, i :: as, j :: bs, ha, hb => by
+    have ih := index_lex_mono ds as bs ha.2 hb.2
+    have hia := index_lt_size ds as ha.2
+    have hib := index_lt_size ds bs hb.2
+    simp only [LexLt, index]
+    constructor
+    · rintro (h | ⟨h, hl⟩)
+      · have : (i + 1) * size ds ≤ j * size ds := Nat.mul_le_mul_right _ h
+        rw [Nat.add_mul, Nat.one_mul] at this
+        omega
+      · subst h
+        have := ih.1 hl
+        omega
+    · intro h
+      rcases Nat.lt_trichotomy i j with hij | hij | hij
+      · exact Or.inl hij
+      · subst hij
+        exact Or.inr ⟨rfl, ih.2 (by omega)⟩
+      · have : (j + 1) * size ds ≤ i * size ds := Nat.mul_le_mul_right _ hij
+        rw [Nat.add_mul, Nat.one_mul] at this
+        omega
+
+/-- `LexLt` is the library's lexicographic `<` on lists (for tuples of equal length) -/
+theorem lexLt_iff_lt : ∀ (a b : List Nat), a.length = b.length → (LexLt a b ↔ a < b)
+  | [], [], _ => by simp [LexLt]
+  | [], _ :: _, h => by simp at h
+  | _ :: _, [], h => by simp at h
+  | x :: as, y :: bs, h => by
+    have ih := lexLt_iff_lt as bs (by simpa using h)
+    simp only [LexLt, List.cons_lt_cons_iff, ih]
 
 /-! ### partial-index views -/
 
@@ -292,14 +334,235 @@ theorem gather_get {α} (t : T α) (I : List Nat) (s : T α) (j : Nat) (q : List
         omega
     · cases hs
 
+/-! ### `remove_if`: the two-pointer loop computes the filter -/
+
+/-- the specification, restated with the library filter: the rows whose flag is `false`, in order -/
+theorem keptRows_eq_filter {α} : ∀ (mask : List Bool) (rs : List (List α)), mask.length = rs.length →
+    keptRows mask rs = ((rs.zip mask).filter (fun p => !p.2)).map Prod.fst
+  | [], [], _ => by simp [keptRows]
+  | [], _ :: _, h => by simp at h
+  | _ :: _, [], h => by simp at h
+  | m :: ms, r :: rs, h => by
+    have ih := keptRows_eq_filter ms rs (by simpa using h)
+    cases m <;> simp [keptRows, ih]
+
+/-- `remove_if` (the C++ two-pointer loop `removeIfRows`): the returned count is the number of kept rows and
+    the first `count` rows of the tensor are exactly the kept rows, in their original order; the tensor keeps
+    its number of rows (no allocation). Rows beyond `count` are not specified by the contract. -/
+theorem removeIf_eq_filter {α} (mask : List Bool) (rs : List (List α)) (h : mask.length = rs.length) :
+    (removeIfRows mask rs).1 = (keptRows mask rs).length ∧
+    (removeIfRows mask rs).2.take (removeIfRows mask rs).1 = keptRows mask rs ∧
+    (removeIfRows mask rs).2.length = rs.length := by
+  obtain ⟨s1, s2, s3⟩ := removeIfSkip_spec mask 0 rs
+  simp only [Nat.sub_zero] at s2 s3
+  have hl := removeIfLoop_spec (removeIfSkip mask 0).2 (removeIfSkip mask 0).1 (removeIfSkip mask 0).1 rs
+    (Nat.le_refl _) (by omega)
+  obtain ⟨l1, l2, l3⟩ := hl
+  have hk : (keptRows mask rs).length = (removeIfSkip mask 0).1 +
+      (keptRows (removeIfSkip mask 0).2 (rs.drop (removeIfSkip mask 0).1)).length := by
+    rw [s3, List.length_append, List.length_take]; omega
+  unfold removeIfRows
+  exact ⟨by rw [hk]; exact l1, by rw [s3]; exact l2, l3⟩
+
+/-- tensor form: `remove_if` returns the number of unflagged first-axis indices, keeps the shape and the
+    buffer size, and the first `count` sub-tensors are those `indexed(kept indices)` would copy — so by
+    `gather_get` element `(j, q…)` of the result is element `(keptIdx[j], q…)` of the input. -/
+theorem removeIf_eq_gather {α} (t : T α) (mask : List Bool) (k : Nat) (s : T α) (hwf : t.wf)
+    (hs : t.removeIf mask = some (k, s)) :
+    k = (keptIdx mask 0).length ∧ s.dims = t.dims ∧ s.wf ∧
+    ∃ g, t.gather (keptIdx mask 0) = some g ∧ s.data.take (k * size (t.dims.drop 1)) = g.data := by
+  unfold T.removeIf at hs
+  split at hs
+  · cases hs
+  · rename_i d ds hd
+    split at hs
+    · rename_i hm
+      unfold T.wf at hwf
+      rw [hd] at hwf
+      simp only [size] at hwf
+      have hrl : (rows (size ds) d t.data).length = d := rows_length _ _ _
+      have hrow := rows_row_length (size ds) d t.data hwf
+      obtain ⟨f1, f2, f3⟩ := removeIf_eq_filter mask (rows (size ds) d t.data) (by rw [hrl]; exact hm)
+      have hmem : ∀ r ∈ (removeIfRows mask (rows (size ds) d t.data)).2, r.length = size ds := by
+        intro r hr
+        unfold removeIfRows at hr
+        exact hrow r (removeIfLoop_mem _ _ _ _ r hr)
+      have hkl := keptRows_length mask 0 (rows (size ds) d t.data) (by rw [hrl]; exact hm)
+      simp only [Option.some.injEq, Prod.mk.injEq] at hs
+      obtain ⟨hk, hss⟩ := hs
+      subst hss
+      subst hk
+      have hall : (keptIdx mask 0).all (· < d) = true := by
+        rw [List.all_eq_true]
+        intro i hi
+        have := keptIdx_lt mask 0 i hi
+        simp only [decide_eq_true_eq]; omega
+      refine ⟨by rw [f1, hkl], by simp [hd], ?_, ?_⟩
+      · unfold T.wf
+        simp only [size]
+        rw [flatten_length_of_rows (size ds) _ hmem, f3, hrl]
+      · refine ⟨_, by rw [T.gather, hd]; simp only [hall, if_true]; rfl, ?_⟩
+        simp only [hd, List.drop_succ_cons, List.drop_zero]
+        rw [take_flatten_of_rows (size ds) _ _ hmem, f2]
+        have := keptRows_rows_flatten (size ds) t.data mask 0
+        simp only [Nat.zero_mul, List.drop_zero, hm] at this
+        exact this
+    · cases hs
+
+/-! ### `integral`: the summed-area table equals the naive prefix sums (every rank) -/
+
+/-- buffer level, every rank, by induction on the dimensions: if `f q` is the input element at the valid
+    tuple `q`, the output buffer has the input's size and holds at `index dims idx` the sum of `f` over all
+    tuples `q ≤ idx` componentwise. -/
+theorem integralData_spec : ∀ (dims : List Nat) (xs : List Int) (f : List Nat → Int),
+    xs.length = size dims → (∀ q, Valid dims q → xs[index dims q]? = some (f q)) →
+    (integralData dims xs).length = size dims ∧
+    ∀ idx, Valid dims idx → (integralData dims xs)[index dims idx]? = some (boxSum idx f)
+  | [], xs, f, hl, hf => by
+    refine ⟨by simpa [integralData] using hl, ?_⟩
+    intro idx hv
+    cases idx with
+    | nil => simpa [integralData, boxSum] using hf [] hv
+    | cons _ _ => simp [Valid] at hv
+  | [d], xs, f, hl, hf => by
+    have hd : xs.length = d := by simpa [size] using hl
+    have hg : ∀ j, j < xs.length → xs[j]? = some (f [j]) := by
+      intro j hj
+      have := hf [j] ⟨by omega, trivial⟩
+      simpa [index, size] using this
+    refine ⟨by simp [integralData, prefixSums1_length, hl], ?_⟩
+    intro idx hv
+    match idx, hv with
+    | [i], hv =>
+      have hi : i < d := hv.1
+      have := prefixSums1_get xs (fun j => f [j]) hg i (by omega)
+      simpa [integralData, index, size, boxSum] using this
+    | _ :: _ :: _, hv => exact absurd hv.2 (by simp [Valid])
+  | d :: d2 :: ds, xs, f, hl, hf => by
+    have hl' : xs.length = d * size (d2 :: ds) := hl
+    have hrowlen : ∀ j, j < d → ((xs.drop (j * size (d2 :: ds))).take (size (d2 :: ds))).length
+        = size (d2 :: ds) := by
+      intro j hj
+      rw [List.length_take, List.length_drop, hl']
+      have : j * size (d2 :: ds) + size (d2 :: ds) ≤ d * size (d2 :: ds) := by
+        calc j * size (d2 :: ds) + size (d2 :: ds) = (j + 1) * size (d2 :: ds) := by
+              rw [Nat.add_mul, Nat.one_mul]
+          _ ≤ d * size (d2 :: ds) := Nat.mul_le_mul_right _ hj
+      omega
+    have hinner : ∀ j r, ((rows (size (d2 :: ds)) d xs).map (integralData (d2 :: ds)))[j]? = some r →
+        IsRow (size (d2 :: ds)) (fun k => boxSum (unindex (d2 :: ds) k) (fun q => f (j :: q))) r := by
+      intro j r hj
+      rw [List.getElem?_map] at hj
+      rcases Nat.lt_or_ge j d with hjd | hjd
+      · rw [rows_get _ d xs j hjd] at hj
+        simp only [Option.map_some, Option.some.injEq] at hj
+        subst hj
+        obtain ⟨il, ig⟩ := integralData_spec (d2 :: ds) _ (fun q => f (j :: q)) (hrowlen j hjd) (by
+          intro q hq
+          have hk := index_lt_size (d2 :: ds) q hq
+          rw [List.getElem?_take, if_pos hk, List.getElem?_drop]
+          have := hf (j :: q) ⟨hjd, hq⟩
+          simpa [index] using this)
+        refine ⟨il, fun k hk => ?_⟩
+        have := ig (unindex (d2 :: ds) k) (valid_unindex (d2 :: ds) k hk)
+        rw [index_unindex (d2 :: ds) k hk] at this
+        exact this
+      · rw [List.getElem?_eq_none (by rw [rows_length]; exact hjd)] at hj
+        simp at hj
+    have hacc := accRows1_spec (size (d2 :: ds)) _ _ hinner
+    have hlen_acc : (accRows1 ((rows (size (d2 :: ds)) d xs).map (integralData (d2 :: ds)))).length = d := by
+      rw [accRows1_length, List.length_map, rows_length]
+    have hmem : ∀ r ∈ accRows1 ((rows (size (d2 :: ds)) d xs).map (integralData (d2 :: ds))),
+        r.length = size (d2 :: ds) := by
+      intro r hr
+      obtain ⟨i, hi⟩ := List.mem_iff_getElem?.1 hr
+      exact (hacc i r hi).1
+    refine ⟨?_, ?_⟩
+    · simp only [integralData]
+      rw [flatten_length_of_rows _ _ hmem, hlen_acc]
+      rfl
+    · intro idx hv
+      match idx, hv with
+      | i :: is, ⟨hi, his⟩ =>
+        have hk := index_lt_size (d2 :: ds) is his
+        obtain ⟨row, hrow⟩ : ∃ row, (accRows1 ((rows (size (d2 :: ds)) d xs).map
+            (integralData (d2 :: ds))))[i]? = some row :=
+          ⟨_, List.getElem?_eq_getElem (by rw [hlen_acc]; exact hi)⟩
+        have hr := hacc i row hrow
+        simp only [integralData, index]
+        rw [flatten_get _ _ i _ row hmem hrow hk, hr.2 _ hk]
+        simp only [boxSum, unindex_index (d2 :: ds) is his]
+
+/-- **summed-area table = naive prefix sums, every rank.** For a well-formed tensor whose element at the
+    valid tuple `q` is `f q`, `nano::integral` yields a well-formed tensor of the same shape whose element
+    at `idx` is the sum of the input over all `q ≤ idx` componentwise. -/
+theorem integral_eq_prefix_sums (t : T Int) (f : List Nat → Int) (hwf : t.wf)
+    (hf : ∀ q, Valid t.dims q → t.get? q = some (f q)) :
+    t.integral.dims = t.dims ∧ t.integral.wf ∧
+    ∀ idx, Valid t.dims idx → t.integral.get? idx = some (boxSum idx f) := by
+  have hf' : ∀ q, Valid t.dims q → t.data[index t.dims q]? = some (f q) := by
+    intro q hq
+    have := hf q hq
+    simpa [T.get?, hq] using this
+  obtain ⟨hl, hg⟩ := integralData_spec t.dims t.data f hwf hf'
+  unfold T.integral
+  split
+  · rename_i h0
+    refine ⟨rfl, hwf, ?_⟩
+    intro idx hv
+    have := index_lt_size _ _ hv
+    omega
+  · refine ⟨rfl, hl, ?_⟩
+    intro idx hv
+    simp only [T.get?, hv, if_true]
+    exact hg idx hv
+
+/-- rank 1: `out[i] = Σ_{j ≤ i} xs[j]` -/
+theorem integral_rank1 (xs : List Int) (i : Nat) (hi : i < xs.length) :
+    (integralData [xs.length] xs)[i]? = some (sumTo i (fun j => xs.getD j 0)) := by
+  have := (integralData_spec [xs.length] xs (fun q => xs.getD (index [xs.length] q) 0)
+    (by simp [size]) (by
+      intro q hq
+      have := index_lt_size _ _ hq
+      simp only [size, Nat.mul_one] at this
+      simp [List.getD, List.getElem?_eq_getElem this])).2 [i] ⟨hi, trivial⟩
+  simpa [index, size, boxSum] using this
+
+/-- rank 2: `out[i, k] = Σ_{j ≤ i} Σ_{l ≤ k} xs[j * c + l]` for an `r × c` row-major buffer -/
+theorem integral_rank2 (r c : Nat) (xs : List Int) (hl : xs.length = r * c) (i k : Nat) (hi : i < r) (hk : k < c) :
+    (integralData [r, c] xs)[i * c + k]?
+      = some (sumTo i (fun j => sumTo k (fun l => xs.getD (j * c + l) 0))) := by
+  have := (integralData_spec [r, c] xs (fun q => xs.getD (index [r, c] q) 0)
+    (by simp [size, hl]) (by
+      intro q hq
+      have := index_lt_size _ _ hq
+      simp only [size, Nat.mul_one] at this
+      simp [List.getD, List.getElem?_eq_getElem (hl ▸ this)])).2 [i, k] ⟨hi, hk, trivial⟩
+  simpa [index, size, boxSum] using this
+
 /-! ### non-vacuity: the shape of the unit test, and a shape with a 0 and a 1 dimension -/
 
 example : Valid [3, 7, 5, 4] [2, 6, 4, 3] ∧ index [3, 7, 5, 4] [2, 6, 4, 3] = 419 ∧ size [3, 7, 5, 4] = 420 := by
   decide
 example : ValidPrefix [3, 7, 5, 4] [2, 6] ∧ index [3, 7, 5, 4] [2, 6] + size (dims0 [3, 7, 5, 4] 2) = 420 := by
   decide
+example : LexLt [1, 6, 4, 3] [2, 0, 0, 0] ∧ index [3, 7, 5, 4] [1, 6, 4, 3] + 1 = index [3, 7, 5, 4] [2, 0, 0, 0] :=
+  ⟨Or.inl (by decide), by decide⟩
 example : size [2, 0, 1] = 0 ∧ ¬ Valid [2, 0, 1] [0, 0, 0] := by decide
 example : reshapeDims 24 [2, -1, 3] = some [2, 4, 3] := by decide
 example : reshapeDims 24 [5, -1] = none := by decide
+-- integral: 2x3 table, a rank-3 table, and the specification side evaluated on a 2x3 box
+example : integralData [2, 3] [1, 2, 3, 4, 5, 6] = [1, 3, 6, 5, 12, 21] := by decide
+example : (T.integral ⟨[2, 2, 2], [1, 1, 1, 1, 1, 1, 1, -7]⟩).data = [1, 2, 2, 4, 2, 4, 4, 0] := by decide
+example : boxSum [1, 2] (fun q => match q with | [a, b] => (10 * a + b : Int) | _ => 1000)
+    = 0 + 1 + 2 + 10 + 11 + 12 := by decide
+example : (T.integral ⟨[2, 0], ([] : List Int)⟩).data = [] ∧ ¬ Valid [2, 0] [0, 0] := by decide
+-- remove_if: rows 1 and 3 flagged; 3 rows kept and compacted, the tail keeps what the loop left there
+example : removeIfRows [false, true, false, true, false] [[0], [1], [2], [3], [4]]
+    = (3, [[0], [2], [4], [3], [4]]) := by decide
+example : keptRows [false, true, false, true, false] [[0], [1], [2], [3], [4]] = [[0], [2], [4]]
+    ∧ keptIdx [false, true, false, true, false] 0 = [0, 2, 4] := by decide
+example : (T.removeIf ⟨[3, 2], [0, 1, 2, 3, 4, 5]⟩ [true, false, false]).map (fun p => (p.1, p.2.data))
+    = some (2, [2, 3, 4, 5, 4, 5]) := by decide
 
 end NanoVerif.Tensor
